@@ -200,9 +200,15 @@ def gen_config(cs, tier='quick', force=None):
     names = list(table)
     nin = 1 + cs.choose(min(4, len(names)), 'nin')
     inputs = []
-    for _ in range(nin):
+    for j_ in range(4):
+        if j_ >= nin or not names:
+            break
         name = names.pop(cs.choose(len(names), 'in'))
         spec = table[name]
+        if j_ == 0 and spec.get('discrete') and cs.choose(2, 'all_discrete') == 1:
+            # settings files with discrete inputs only: sampled combinations repeat
+            names = [n_ for n_ in names if table[n_].get('discrete')]
+            nin = min(nin, 1 + len(names))
         if c['iter_fail'] and spec['edge'] and cs.choose(2, 'edge') == 1:
             d = spec['edge'][cs.choose(len(spec['edge']), 'edgedist')]
             edge = True
@@ -769,12 +775,20 @@ def analyse(rec, c, k, out_path, inp_path, payload, driver=None):
                     pit.append((i['dist'], round(u, 6)))
         rec['pit'] = pit
     # --- C14: replay rows -------------------------------------------------------------
-    nrep = payload.get('replay_rows', 6 if c['program'] == 'hip' else 2)
+    nrep = payload.get('replay_rows', 6 if c['program'] == 'hip' else 3)
     base = base_text(c)
     cand = [r for r in rows if len(r[1]) == len(c['outputs']) and [p[0] for p in r[2]] == in_names]
     if len(cand) > nrep:
-        step = len(cand) / nrep
-        cand = [cand[int(i * step)] for i in range(nrep)]
+        # rows whose sampled combination occurs more than once first (discrete inputs): they are where a result cached or
+        # left over from another iteration would be served; then an even spread
+        seen_k = collections.Counter(tuple(p_[1] for p_ in r[2]) for r in cand)
+        rep_rows = [r for r in cand if seen_k[tuple(p_[1] for p_ in r[2])] > 1]
+        if len(rep_rows) > nrep:
+            rep_rows = rep_rows[-nrep:]
+        rest = [r for r in cand if r not in rep_rows]
+        need = nrep - len(rep_rows)
+        step = len(rest) / need if need > 0 and rest else 0
+        cand = rep_rows + ([rest[int(i * step)] for i in range(min(need, len(rest)))] if step else [])
     replayed = 0
     K.KERNEL = None
     for lineno, toks, pairs, ln in cand:
